@@ -6327,43 +6327,46 @@ func ruleAllSynOnlyForSynaptic(r *Run) {
 		return
 	}
 	n := 0
-	for _, b := range f.Blocks {
-		for _, in := range b.Instrs {
-			mu, ok := in.(*ssa.MapUpdate)
-			if !ok {
-				continue
-			}
-			// the key comes from newIndexedLabel(AllSyn, …)
-			all := false
-			for _, rv := range roots(mu.Key, f) {
-				if kc, ok := rv.V.(*ssa.Call); ok {
-					if callee := kc.Call.StaticCallee(); callee != nil && callee.Name() == "newIndexedLabel" {
-						if c, ok := kc.Call.Args[0].(*ssa.Const); ok {
-							if v, ok := constInt(c); ok && w.pkgScopeConst("datatype/labelsz", "AllSyn") != nil {
-								if want, ok2 := constant.Int64Val(w.pkgScopeConst("datatype/labelsz", "AllSyn")); ok2 && want == v {
-									all = true
+	top := f
+	for _, f := range withHelpers(top) { // the tally may be built by a helper (d.countChanges(delta))
+		for _, b := range f.Blocks {
+			for _, in := range b.Instrs {
+				mu, ok := in.(*ssa.MapUpdate)
+				if !ok {
+					continue
+				}
+				// the key comes from newIndexedLabel(AllSyn, …)
+				all := false
+				for _, rv := range roots(mu.Key, f) {
+					if kc, ok := rv.V.(*ssa.Call); ok {
+						if callee := kc.Call.StaticCallee(); callee != nil && callee.Name() == "newIndexedLabel" {
+							if c, ok := kc.Call.Args[0].(*ssa.Const); ok {
+								if v, ok := constInt(c); ok && w.pkgScopeConst("datatype/labelsz", "AllSyn") != nil {
+									if want, ok2 := constant.Int64Val(w.pkgScopeConst("datatype/labelsz", "AllSyn")); ok2 && want == v {
+										all = true
+									}
 								}
 							}
 						}
 					}
 				}
-			}
-			if !all {
-				continue
-			}
-			n++
-			guarded := false
-			for _, b2 := range f.Blocks {
-				ifi, isIf := b2.Instrs[len(b2.Instrs)-1].(*ssa.If)
-				if !isIf {
+				if !all {
 					continue
 				}
-				if c, ok := ifi.Cond.(*ssa.Call); ok && methodNameOf(c) == "IsSynaptic" && guardedByEdge(ifi, 0, mu) {
-					guarded = true
+				n++
+				guarded := false
+				for _, b2 := range f.Blocks {
+					ifi, isIf := b2.Instrs[len(b2.Instrs)-1].(*ssa.If)
+					if !isIf {
+						continue
+					}
+					if c, ok := ifi.Cond.(*ssa.Call); ok && methodNameOf(c) == "IsSynaptic" && guardedByEdge(ifi, 0, mu) {
+						guarded = true
+					}
 				}
+				r.check(guarded, fmt.Sprintf("modifyElements:AllSyn-change#%d:only-for-synaptic-kinds", n), "behind Kind.IsSynaptic()",
+					"the all-synapse count of a body is changed for an element of any kind: deleting or moving a Note takes one off the body's AllSyn count, which then disagrees with the body's list of synaptic elements", w.pos(mu.Pos()))
 			}
-			r.check(guarded, fmt.Sprintf("modifyElements:AllSyn-change#%d:only-for-synaptic-kinds", n), "behind Kind.IsSynaptic()",
-				"the all-synapse count of a body is changed for an element of any kind: deleting or moving a Note takes one off the body's AllSyn count, which then disagrees with the body's list of synaptic elements", w.pos(mu.Pos()))
 		}
 	}
 	r.check(n >= 2, "modifyElements:AllSyn-changes", fmt.Sprintf("%d", n), "fewer than expected: rule needs review", w.fpos(f))
